@@ -91,7 +91,9 @@ Inductive op : Type :=
 | OWrite (k : kind) (v : Z)
 | ORead (k : kind)
 | OPeek (k : kind)
-| OBytes.                      (* Bytes(): the unread part *)
+| OBytes                       (* Bytes(): the unread part *)
+| OReset                       (* Reset() of the embedded bytes.Buffer: everything unread is dropped *)
+| ORaw (bs : list Z).          (* Write(bs) of the embedded bytes.Buffer: raw bytes, appended verbatim *)
 
 Inductive out : Type :=
 | RLen (len : nat)             (* Len() after a write *)
@@ -111,6 +113,8 @@ Definition step (ws : Z) (b : list Z) (o : op) : list Z * out :=
                | None => (b, RPanic (length b))
                end
   | OBytes => (b, RBytes b)
+  | OReset => ([], RLen 0)
+  | ORaw bs => (b ++ bs, RLen (length (b ++ bs)))
   end.
 
 Fixpoint run (ws : Z) (b : list Z) (ops : list op) : list Z * list out :=
